@@ -18,7 +18,7 @@ use crate::gen::*;
 use crate::hexs::Hex;
 use crate::layout::fields;
 use crate::rng::{Gen, SimRng};
-use crate::suite::{Codec, Fail, Ids, Item, Kind, KsfArg, SuiteOps, BYTE_CODECS, NATIVE_DECODERS, SIM_SUITES};
+use crate::suite::{Codec, Fail, Ids, Item, Kind, KsfArg, SuiteOps, BYTE_CODECS, NATIVE_DECODERS, SIM_SUITES, ARGON_SUITES};
 use crate::world::{IdSpec, Op, Ref, RunResult, Violation, WIds, World};
 
 pub const OWN: &[&str] = &["panic", "oversize_accepted"];
@@ -484,6 +484,42 @@ pub fn run(ctx: &Ctx) -> Report {
         size_world(seed, i as u64, suites[si], which, len)
     };
     super::world_batch(ctx, &mut rep, sjobs.len(), &gens, OWN, true, Some(&size_judge));
+    // (f) Argon2 instances whose Params carry an explicit output length (shorter than, equal to
+    // and longer than Nh), at registration, at login, or both: every step yields a value
+    let argon: Vec<&'static dyn SuiteOps> = ARGON_SUITES.to_vec();
+    let mut ojobs = vec![];
+    for si in 0..argon.len() {
+        let nh = argon[si].lens().nh as u32;
+        for out in [4u32, 16, nh - 1, nh, nh + 1, 64, 128, 1024] {
+            for mode in 0..3 {
+                ojobs.push((si, out, mode));
+            }
+        }
+    }
+    let ogens = |i: usize| {
+        let (si, out, mode) = ojobs[i];
+        let s = argon[si];
+        let mut g = Gen::new(seed, &format!("gen/c12/argon-out/{}/{}", s.name(), i));
+        let mut b = WB::new(s, seed, i as u64, &format!("c12 Argon2 with output_len {out} (Nh = {}), mode {mode}", s.lens().nh));
+        let setup = b.setup(false);
+        let plain = KsfArg::Argon2 { m: 8, t: 1, p: 1 };
+        let odd = KsfArg::Argon2Out { out };
+        let (rk, lk) = match mode {
+            0 => (odd.clone(), odd.clone()),
+            1 => (plain.clone(), odd.clone()),
+            _ => (odd.clone(), plain.clone()),
+        };
+        let (r, ops) = b.reg_ops(&mut g, setup, b"pw", b"pw", b"cid", WIds::default(), rk, false);
+        for o in ops {
+            b.push(o);
+        }
+        let (_, ops) = b.login_ops(&mut g, setup, Some(r.record), b"pw", b"pw", b"cid", None, None, WIds::default(), WIds::default(), lk, false);
+        for o in ops {
+            b.push(o);
+        }
+        b.w
+    };
+    super::world_batch(ctx, &mut rep, ojobs.len(), &ogens, OWN, true, None);
     rep.stats.faults.insert("decoder_input_mutations", rep.extra["decoder_inputs"].as_u64().unwrap_or(0));
     rep.assumptions.push("termination is observed as every call returning (the batch finishes); the slowest single decode is reported".into());
     rep.assumptions.push("abusive generators (constant output) and allocation failure are out of scope (DESIGN.md section 6)".into());
